@@ -26,6 +26,10 @@ func (ir *ifdReader) parseTag(t Tag) {
 		switch t.ID {
 		case ifds.Make:
 			ir.Exif.CameraMake, ir.Exif.Make = ir.ParseCameraMake(t)
+			if ir.Exif.Model != "" && ir.Exif.CameraModel == ifds.CameraModelUnknown {
+				// the Model value precedes the Make value in this file
+				ir.Exif.CameraModel, ir.Exif.Model = ir.cameraModelFromString(ir.Exif.Model)
+			}
 		case ifds.Model:
 			ir.Exif.CameraModel, ir.Exif.Model = ir.ParseCameraModel(t)
 		case ifds.Artist:
@@ -169,7 +173,11 @@ func (ir *ifdReader) ParseCameraMake(t Tag) (ifds.CameraMake, string) {
 }
 
 func (ir *ifdReader) ParseCameraModel(t Tag) (ifds.CameraModel, string) {
-	str := ir.ParseBuffer(t)
+	return ir.cameraModelFromString(string(ir.ParseBuffer(t)))
+}
+
+// cameraModelFromString identifies the model name using the tables of the camera make.
+func (ir *ifdReader) cameraModelFromString(str string) (ifds.CameraModel, string) {
 	switch ir.Exif.CameraMake {
 	case ifds.Canon:
 		if model, ok := canon.CameraModelFromString(string(str)); ok {
